@@ -29,7 +29,20 @@ import (
 	"github.com/MinterTeam/minter-go-node/formula"
 )
 
-func init() { commands["c15"] = runC15 }
+func init() {
+	commands["c15"] = runC15
+	// c12tx: the same histories restricted to the three conversions along the bonding curve (sell / buy / sell-all coin);
+	// the monitor c12-tx-off-curve and the correspondence with model 19 tie formula/formula.go's callers to the curve
+	commands["c12tx"] = func(seed uint64, n int, out, stats string, args []string) {
+		c15BancorOnly, c15StatsProp = true, "C12"
+		runC15(seed, n, out, stats, nil)
+	}
+}
+
+var (
+	c15BancorOnly bool
+	c15StatsProp  = "C15"
+)
 
 const c15Model = 19
 
@@ -352,6 +365,9 @@ func (g *c15gen) gen() *c15tx {
 		t.typ = 5
 	default:
 		t.typ = 6
+	}
+	if c15BancorOnly && t.typ <= 3 {
+		t.typ = 4 + r.Intn(3)
 	}
 	if t.typ <= 3 {
 		t.coins = g.route()
@@ -774,6 +790,7 @@ type c15poolTag struct {
 }
 
 type c15run struct {
+	curveChecked int // accepted bonding-curve conversions compared with the formulas (C12)
 	c        *Cases
 	mon      []MonitorFailure
 	dist     map[string]int
@@ -849,6 +866,18 @@ func (g *c15gen) step(x *c15run, t *c15tx, model bool, where string) bool {
 			ords = append(ords, Z(int64(l.ID())), cp(l.WantBuy), cp(l.WantSell))
 		}
 		bookOp = append(append(bookOp, Z(int64(n))), ords...)
+	}
+	// bonding-curve state of the two coins before the transaction (C12 monitor below)
+	type curve struct{ vol, res *big.Int; crr uint32 }
+	preCurve := map[types.CoinID]curve{}
+	if t.typ >= 4 {
+		cs0 := g.cs()
+		for _, c := range []types.CoinID{first, last} {
+			if c != 0 && cs0.Coins().Exists(c) {
+				m := cs0.Coins().GetCoin(c)
+				preCurve[c] = curve{cp(m.Volume()), cp(m.Reserve()), m.Crr()}
+			}
+		}
 	}
 	chk, okc := g.checkRun(raw)
 	if !okc {
@@ -978,6 +1007,56 @@ func (g *c15gen) step(x *c15run, t *c15tx, model bool, where string) bool {
 					}
 					x.onRoute[pos+" "+dir]++
 				}
+			}
+		}
+	}
+	// C12 at the transaction level: an accepted conversion along the bonding curve moves exactly what the formulas of
+	// formula/formula.go give ON THE CURVE THE CONVERSION HAPPENS ON: when the fee was taken from the reserve of one of the
+	// two coins, that coin's supply and reserve without the fee (sell_coin.go / buy_coin.go / sell_all_coin.go: DummyCoin)
+	if t.typ >= 4 && len(t.coins) == 2 && first != last {
+		cib := tagZ(tr, "tx.commission_in_base_coin")
+		at := func(c types.CoinID) (curve, bool) {
+			k, ok := preCurve[c]
+			if !ok || k.crr == 0 {
+				return k, false
+			}
+			if tr.Tags["tx.commission_conversion"] == "bancor" && cc == c && cc != 0 && cib != nil {
+				k = curve{new(big.Int).Sub(k.vol, com), new(big.Int).Sub(k.res, cib), k.crr}
+			}
+			return k, true
+		}
+		kf, okf := at(first)
+		kl, okl := at(last)
+		if (first == 0 || okf) && (last == 0 || okl) {
+			var want *big.Int
+			if t.isSell() {
+				sold := t.v1
+				if t.typ == 6 {
+					sold = new(big.Int).Sub(pre[first], com)
+				}
+				bip := sold
+				if first != 0 {
+					bip = formula.CalculateSaleReturn(kf.vol, kf.res, kf.crr, sold)
+				}
+				want = bip
+				if last != 0 {
+					want = formula.CalculatePurchaseReturn(kl.vol, kl.res, kl.crr, bip)
+				}
+			} else {
+				// buy: coins = [coin to buy ... coin to sell]?  the harness stores the route from the sold to the bought coin
+				bip := t.v1
+				if last != 0 {
+					bip = formula.CalculatePurchaseAmount(kl.vol, kl.res, kl.crr, t.v1)
+				}
+				want = bip
+				if first != 0 {
+					want = formula.CalculateSaleAmount(kf.vol, kf.res, kf.crr, bip)
+				}
+			}
+			x.curveChecked++
+			if want.Cmp(ret) != 0 {
+				x.fail("c12-tx-off-curve", fmt.Sprintf("C12: accepted %s: tx.return %s, the formulas on the curve after the fee (coin %d: supply %v reserve %v; coin %d: supply %v reserve %v; fee %s = %v base via %s) give %s",
+					desc, ret, first, kf.vol, kf.res, last, kl.vol, kl.res, com, cib, tr.Tags["tx.commission_conversion"], want), where)
 			}
 		}
 	}
@@ -1210,7 +1289,7 @@ func runC15(seed uint64, n int, out, stats string, args []string) {
 	}
 	for i := 0; i < n; i++ {
 		s := seed*1000003 + uint64(i)
-		withOrders := i%4 == 3
+		withOrders := i%4 == 3 && !c15BancorOnly
 		where := fmt.Sprintf("vharness c15 -seed %d -n %d (history %d = vharness c15 history %d %d)", seed, n, i, s, b2i(withOrders))
 		oh, op, ot := c15History(x, s, withOrders, where)
 		orderHist += oh
@@ -1227,13 +1306,13 @@ func runC15(seed uint64, n int, out, stats string, args []string) {
 		ks = append(ks, k)
 	}
 	sort.Strings(ks)
-	writeStats(stats, &Stats{Property: "C15", Seed: seed, Cases: x.c.NCases, Ops: x.c.NOps, NonTrivial: x.c.NonTriv,
+	writeStats(stats, &Stats{Property: c15StatsProp, Seed: seed, Cases: x.c.NCases, Ops: x.c.NOps, NonTrivial: x.c.NonTriv,
 		Rule: "seeded history on a real node whose genesis holds 3 tokens, 2 bancor coins and 6 swap pools (incl. the pools of three gas coins with the base coin): 4-8 blocks of 1-4 conversion transactions (sell / buy / sell-all through pools with routes of 2-5 coins that do / do not pass through the commission pool, in both orientations and at every position; sell / buy / sell-all through the bonding curve), every gas coin kind (base, pool route, reserve route, both, none), dust amounts, amounts around the reserves and balances, invalid routes; the limit is set around the amount the node's own check phase computes (exact, +-1, +-%, none); each transaction is run in check mode on the in-flight state and then delivered; three histories out of four carry no limit orders and are compared with model 19 (code, sender balance deltas in the first / last / commission coin, tx.return, tx.sell_amount, commission tags, reserves of the route's pools and of the commission pool, volume and reserve of the coins), the fourth has limit orders at and below the price of every pool and runs the monitors, and every accepted single-hop sale gas coin -> base coin paid in the gas coin through its pool is a case of the order-book model (op 20 of model 19: reserves, the order book met, price, value -> the amount the check phase computes, the amount delivered); non-trivial = at least one accepted conversion in the history / an accepted order-book sale; distinct = distinct case text",
 		Dist: x.dist, Samples: x.c.Samples, Monitor: x.mon,
 		Extra: map[string]interface{}{"txs": x.txs, "accepted_txs": x.accepted, "check_deliver_agreements": x.agree, "codes": x.codes,
 			"limit_kinds": x.limits, "boundary_known": x.boundary, "accepted_at_exact_limit": x.tightAcc, "delivered_better_than_simulated": x.better, "order_book_model_cases": x.bookCases, "tighter_than_boundary": x.tightRej,
 			"commission_through_pool": x.viaPool, "commission_pool_on_route": x.onRoute, "first_coin_is_last_coin": x.cycle,
-			"case_kinds": x.c.Dist, "histories_with_orders": orderHist, "orders_placed": ordersPlaced, "txs_with_orders": orderTxs, "monitor_keys": strings.Join(ks, ",")}})
+			"curve_conversions_compared_with_formulas": x.curveChecked, "case_kinds": x.c.Dist, "histories_with_orders": orderHist, "orders_placed": ordersPlaced, "txs_with_orders": orderTxs, "monitor_keys": strings.Join(ks, ",")}})
 }
 
 
